@@ -270,6 +270,21 @@ def db_stamp_full():
     return h.hexdigest()
 
 
+def module_tables_stamp_cheap():
+    """identity and size of every module-level dict / list / set of every loaded peptacular module (detects a table that is
+    rebound or grows / shrinks, e.g. a memo cache being filled)"""
+    import sys
+    out = []
+    for name in sorted(m for m in sys.modules if m == 'peptacular' or m.startswith('peptacular.')):
+        mod = sys.modules[name]
+        if mod is None:
+            continue
+        for k, v in vars(mod).items():
+            if isinstance(v, (dict, list, set)) and not k.startswith('__'):
+                out.append((name, k, id(v), len(v)))
+    return out
+
+
 def module_tables_digest(only=None):
     """content digest of every module-level dict / list / set / tuple of every loaded peptacular module"""
     import sys
@@ -734,12 +749,20 @@ class State:
         self.uses = []       # per shape: spec name -> closed key set actually read
         self.fresh = []      # per shape: spec name -> canonical result on a fresh world
         self.writes = []     # per shape: spec name -> world keys observed changed by the call on a fresh world
-        for w0 in self.worlds:
+        self.first_call_failures = []   # module-level tables of the package that changed at the very first calls (caches)
+        for si, w0 in enumerate(self.worlds):
             u, f = {}, {}
             for s in self.specs:
                 rw = RecWorld(copy.deepcopy(w0))
                 st = _random.getstate()
+                g0 = module_tables_stamp_cheap()
                 r, _ = run_call(s, rw)
+                g1 = module_tables_stamp_cheap()
+                if g0 != g1:
+                    ch = sorted(set(f'{a}.{b}' for a, b, _, _ in set(g0) ^ set(g1)))
+                    self.first_call_failures.append({
+                        'kind': 'global-state-disturbed', 'shape': self.wires[si], 'calls': [s.name], 'changed': ch,
+                        'detail': f'{s.api}: module-level table(s) of the package rebound or resized by the call: {ch}'})
                 _random.setstate(st)
                 u[s.name] = close_keys(rw.read)
                 f[s.name] = r
